@@ -19,7 +19,7 @@ CHECKS["C10"] = dict(
 
 CHECKS["C20"] = dict(
     technique="TLA+ specs PanLockset/PanSymtab: TLC explores all interleavings of 3 processes (locked variant safe, unlocked variant must violate NoRace); lock/table-access traces recorded from the auto-instrumented real interpreter (start-up goroutines + N concurrent evaluations) are validated against PanLockset by TLC (trace validation); second observation channel: the production build (no hooks) under the Go race detector (barrier rounds, random programs, a real http-module server with concurrent clients), each report of an unsynchronised access pair in the interpreter's packages is an Unsync trace event that PanLockset never enables, and concurrent results must equal the sequential ones",
-    text="Design-level exhaustive model checking of the RWMutex protocol, and lockset trace validation of real concurrent executions: every table access event must be enabled (lock held) in the specification, independent of whether a race happens in the observed schedule. Interpreter-wide state outside object/hashtable.go (other packages, fields of shared objects) is observed by the race detector on schedule-dependent runs.",
+    text="Design-level exhaustive model checking of the RWMutex protocol, and lockset trace validation of real concurrent executions: every table access event must be enabled (lock held) in the specification, independent of whether a race happens in the observed schedule. Interpreter-wide state outside object/hashtable.go (other packages, fields of shared objects) is observed by the race detector on schedule-dependent runs: 96 barrier rounds and three real servers of the http module (serveBackground, blocking serve, and a script whose top level is a scope of its own).",
     note="Trusts TLC, the build-time instrumentation (harness/cmd/hookgen, statement granularity, package-level variables of object/hashtable.go only), the event order recorded under the tracer's mutex, and the Go race detector (happens-before; finds only pairs not ordered in the observed run).",
     design="§5 C20")
 
@@ -31,7 +31,7 @@ CHECKS["C18"] = dict(
 
 CHECKS["C02"] = dict(
     technique="TLA+ spec PanGrammar: precedence-climbing machine driven by the documented table computes the implied parenthesisation of every TLC-enumerated statement (all connector pairs/triples x operand shapes); replayed into the real parser: parse(w) must equal parse(Paren(w))",
-    text="Bounded-exhaustive: every ordered pair (thorough: triple) of the 23 infix operators, assignments, if/else, under jump keywords, with 18 operand shapes (prefix operators, chains, calls, indexing, grouping) is grouped by the specification's table and compared with the real parser's grouping, on the committed y.go and on y.go regenerated from parser.go.y when they differ.",
+    text="Bounded-exhaustive: every ordered pair (thorough: triple) of the 23 infix operators, assignments, if/else, under jump keywords, with 31 operand shapes (prefix operators, chains, calls, indexing, grouping, operator-named properties, parenthesised conditionals) is grouped by the specification's table; every statement without a jump keyword is also written inside 20 enclosing places (list element, argument, index, pair, body, interpolation, parentheses) where its tree must be the same, and with predicate-style names and no spaces; and compared with the real parser's grouping, on the committed y.go and on y.go regenerated from parser.go.y when they differ.",
     note="Trusts TLC, that grouping parentheses parse correctly, and ast String() as a faithful rendering of the tree; chained if is not determined by the table and is only logged.",
     design="§5 C02")
 
@@ -43,7 +43,7 @@ CHECKS["C16"] = dict(
 
 CHECKS["C17"] = dict(
     technique="TLA+ spec PanLiterals (digit Horner over BigInt, exponent forms, escape table, name pattern): TLC enumerates spellings and prescribes value / rejection / working name, each replayed into the real interpreter; float literals recorded from the interpreter are validated as nearest doubles by TLC with integer arithmetic (trace validation)",
-    text="Bounded-exhaustive spelling families (4 bases with separators, exponent forms, strings/raw strings by pieces, identifiers incl. reserved-word derivatives) plus boundary and seeded random spellings around 2^53/2^63/2^64, judged against exact BigInt values; floats judged by an exact correct-rounding inequality.",
+    text="Bounded-exhaustive spelling families (4 bases with separators, exponent forms, strings/raw strings by pieces, identifiers incl. reserved-word derivatives) plus boundary and seeded random spellings around 2^53/2^63/2^64, judged against exact BigInt values; every two-character name and listed look-alikes defined together as variables / properties / keywords and read back; floats judged by an exact correct-rounding inequality.",
     note="Trusts TLC, BigInt (validated by MC_BigInt in C10) and the worker's canonical rendering; escapes the reference does not mention and non-integer exponent forms are logged, not judged.",
     design="§5 C17")
 
@@ -55,7 +55,7 @@ CHECKS["C03"] = dict(
     note=_EVN, design="§5 C03")
 CHECKS["C07"] = dict(
     technique=_EV + "a raise is injected at every child position of every host construct under every nesting/handler; recorded runs are validated against PanEval by TLC (trace validation); leaked error objects are searched in every rendered value",
-    text="Exhaustive over hosts x positions x raise kinds x nestings x handlers: no marker after the raise, same kind/message at the handler (try / thoughtful chain) or program end, no raised error stored inside a value.",
+    text="Exhaustive over hosts x positions x raise kinds x nestings x handlers: no marker after the raise, same kind/message at the handler (try / thoughtful chain) or program end, no raised error stored inside a value; runs of the real test driver over directories in which one file raises end with that error.",
     note=_EVN, design="§5 C07")
 CHECKS["C08"] = dict(
     technique=_EV + "side-effecting children in every slot: recorded effect order validated against PanEval by TLC; determinism (the spec is a function: out-degree 1) bound by N-fold repetition in and across processes, also for programs over maps/objects/JSON outside the fragment",
@@ -67,7 +67,7 @@ CHECKS["C12"] = dict(
     note=_EVN, design="§5 C12")
 CHECKS["C15"] = dict(
     technique=_EV + "every body of n statements over the defer/exit alphabet in five calling contexts; recorded runs validated against PanEval by TLC (trace validation)",
-    text="Bounded-exhaustive over bodies (n<=3 quick, 4 thorough; 15 statement kinds incl. plain/guarded/raising defers, return, four raise kinds, nested callees with own defers) x {function, method, literal call, under try, nested function}: defers once, in order, after the body, on every exit; raising defer replaces the outcome and stops the rest.",
+    text="Bounded-exhaustive over bodies (n<=3 quick, 4 thorough; 15 statement kinds incl. plain/guarded/raising defers, return, four raise kinds, nested callees with own defers) x {function, method, literal call, under try, nested function}: defers once, in order, after the body, on every exit; raising defer replaces the outcome and stops the rest; bodies of 63..1030 statements with defers around positions 64 / 128 / 256; guarded defers whose guard raises.",
     note=_EVN, design="§5 C15")
 
 CHECKS["C04"] = dict(
@@ -77,7 +77,7 @@ CHECKS["C04"] = dict(
 
 CHECKS["C05"] = dict(
     technique="TLA+ spec PanProto (prototype forest state machine: Literal / Bear / Bro / unrelated-literal steps; Find, Resolve, Ancestors, KindOf): TLC explores every forest of <= 3 constructor steps and checks the forest invariants; every behaviour is replayed as a program in the real interpreter and each lookup query compared",
-    text="Bounded-exhaustive model checking of the forest machine and replay of its behaviours: for every object and name (own / inherited / shadowed / absent / via _missing): read, call with arguments, index by symbol, which, list-chain form, keys, ancestors, proto, kindOf?.",
+    text="Bounded-exhaustive model checking of the forest machine and replay of its behaviours: for every object and name (own / inherited / shadowed / absent / via _missing): read, call with arguments, index by symbol, which, list-chain form, keys, ancestors, proto, kindOf?; roots that are not objects (5, \"s\", [1, 2], nil), their children and their siblings.",
     note="Trusts TLC, the canonical rendering, and the marker values the replay puts into properties; objects carry a unique tag so that structural == is identity.",
     design="§5 C05")
 
@@ -89,12 +89,12 @@ CHECKS["C09"] = dict(
 
 CHECKS["C13"] = dict(
     technique="TLA+ spec PanEither (k-step Either machine: steps run only while no failure, accessor table): TLC explores every chain of <= 3 steps over 10 step kinds, checks Stable and accessor consistency; every behaviour is replayed wrapped (all accessors) and plain in the real interpreter",
-    text="Bounded-exhaustive: calls made, captured error kind/message (= plain raise), skipping after the first failure, and val/err/A/or/val?/err?/catch/ignore/abandon for every chain; steps: methods returning value / nil / raising three error kinds, method with positional+keyword arguments, non-callable property, literal steps incl. one returning a caught error object.",
+    text="Bounded-exhaustive: calls made, captured error kind/message (= plain raise), skipping after the first failure, and val/err/A/or/val?/err?/catch/ignore/abandon for every chain; steps: methods returning value / nil / raising three error kinds, method with positional+keyword arguments, non-callable property, literal steps incl. one returning a caught error object; built-in receivers x the names of their prototypes as steps, callable receivers (function and object), wrapped vs plain.",
     note="Trusts TLC and the interpreter's own rendering of receiver objects; three deviation classes of Wrappable._missing are recorded as known findings.",
     design="§5 C13")
 
 CHECKS["C14"] = dict(
-    technique="TLA+ spec PanIter (per-iterator state machine: new / _iter copy / alias / next / pure walks): TLC explores every history of <= 4 (5) operations over two variables for 7 body kinds and checks OnlyTargetMoves / WalksArePure / StoppedStays; every behaviour is replayed operation by operation in the real interpreter",
+    technique="TLA+ spec PanIter (per-iterator state machine: new / _iter copy / alias / next / pure walks): TLC explores every history of <= 4 (5) operations over two variables for 13 body kinds (incl. a chain whose function asks the other iterator for its next value, WalkZip) and checks OnlyTargetMoves / WalksArePure / StoppedStays; every behaviour is replayed operation by operation in the real interpreter",
     text="Bounded-exhaustive histories: each next / A / list-chain / reduce-chain result must be the machine's, so iterators derived by new, x.new, _iter never share progress, aliases do, walks do not advance, StopIterErr persists.",
     note="Trusts TLC and the canonical rendering; StopIterErr outcomes are observed through try; built-in iterators are outside the statement.",
     design="§5 C14")
@@ -107,7 +107,7 @@ CHECKS["C06"] = dict(
 
 CHECKS["C19"] = dict(
     technique="TLA+ spec PanSession (one interpreter, sequence of programs in fresh scopes: observation = FreshObs(p), shared state constant): TLC enumerates sessions; each is run in one real interpreter under three embeddings and the recorded observations / shared-state projections are validated against PanSession by TLC (trace validation), FreshObs measured in newly started interpreters",
-    text="Every (history, probe) pair and two-program histories over a pool of 24 programs (quick: 900 seeded, thorough: all 24^3) under the playground pattern, Str#evalEnv and the real `pangaea test` driver: output, value, error message and stack trace of each program equal those of a newly started interpreter; the projection of built-in objects and of the shared `_` error never changes.",
+    text="Every (history, probe) pair and two-program histories over a pool of 83 programs (quick: 900 seeded, thorough: 40000 seeded two-program histories; five 'wear' histories of >10000 handled errors / calls / new names before ordinary probes) under the playground pattern, Str#evalEnv, the real `pangaea test` driver and one real http server (14 requests, pairs and triples): output, value, error message and stack trace of each program equal those of a newly started interpreter; the projection of built-in objects and of the shared `_` error never changes.",
     note="Trusts TLC and the worker's projections; web/wasm/executor.go (GOOS=js) cannot be linked natively, its execute pattern is reproduced; HTTP handlers are not driven (loopback not assumed).",
     design="§5 C19")
 
